@@ -324,7 +324,7 @@ def cut_loop(I: Interp, node, fr: Frame, o: int, spec: dict, seq: Optional[Seq],
             st.assume(iv <= seq.n)
         fr.locals[idx] = SV(smt.mk_int(iv), T.INT)
         assume_invs()
-        if st.solver.check() == z3.unsat:
+        if not st.consistent():
             raise Refuse(f"loop invariant at line {line} is inconsistent with the loop-head state: vacuous proof refused")
         if k == 0:
             if seq is not None:
